@@ -118,20 +118,28 @@ def prim_groups(rng, n, gid0):
     return groups
 
 
-def validate(chk, pid, groups, label):
+def validate(chk, pid, groups, label, batch=1500):
+    """TLC validation of recorded groups, in batches (one JSON file / one TLC run per batch: a single file with tens of
+    thousands of groups exhausts the JVM heap)"""
     for g in groups:
         g.setdefault('kind', 'match')
-    path = os.path.join(common.scratch(), f'embed_{label}.json')
-    with open(path, 'w') as f:
-        json.dump(common.nonull({'pid': pid, 'groups': groups}), f)
-    r = run_tlc('EmbedTrace', 'EmbedTrace.cfg', workers=16, timeout=1800, env={'TRACE_FILE': path})
-    chk.tlc(r, f'EmbedTrace: {len(groups)} groups / {sum(len(g["runs"]) for g in groups)} recorded runs ({label})')
-    os.remove(path)
-    v = {x['gid']: x['verdict'] for x in r.json}
-    chk.count('robustness', skipped_nonrobust=sum(1 for x in r.json if not x['robust']))
-    missing = [g['gid'] for g in groups if g['gid'] not in v]
-    if missing:
-        raise common.MachineryError(f'no verdict for groups {missing[:5]}: {r.tail[-2000:]}')
+    v, nonrobust = {}, 0
+    for b0 in range(0, max(len(groups), 1), batch):
+        part = groups[b0:b0 + batch]
+        if not part:
+            break
+        path = os.path.join(common.scratch(), f'embed_{label}_{b0}.json')
+        with open(path, 'w') as f:
+            json.dump(common.nonull({'pid': pid, 'groups': part}), f)
+        r = run_tlc('EmbedTrace', 'EmbedTrace.cfg', workers=16, timeout=1800, env={'TRACE_FILE': path})
+        chk.tlc(r, f'EmbedTrace: {len(part)} groups / {sum(len(g["runs"]) for g in part)} recorded runs ({label}, batch {b0 // batch + 1})')
+        os.remove(path)
+        v.update({x['gid']: x['verdict'] for x in r.json})
+        nonrobust += sum(1 for x in r.json if not x['robust'])
+        missing = [g['gid'] for g in part if g['gid'] not in v]
+        if missing:
+            raise common.MachineryError(f'no verdict for groups {missing[:5]}: {r.tail[-2000:]}')
+    chk.count('robustness', skipped_nonrobust=nonrobust)
     return v
 
 
